@@ -203,7 +203,16 @@ def width_of(tree, dest):
 def dest_type(dest):
     if dest[0] == "reg":
         return REGKIND[dest[1]]
-    return FMT[dest[1]]
+    return FMT[dest[1][-1]]     # a byte-order prefix does not change the type
+
+
+def unswap(dest, raw):
+    """value of a destination whose bytes were read back little-endian"""
+    if dest[0] != "reg" and len(dest[1]) > 1 and dest[1][0] in ">!":
+        n = FMT[dest[1][-1]][0]
+        return int.from_bytes((raw & ((1 << 8 * n) - 1)).to_bytes(n, "little"),
+                              "big")
+    return raw
 
 
 def expected(tree, dest, env):
@@ -269,7 +278,7 @@ class Prog:
             b.out_local("d", 0)
         else:
             getattr(e, "m" + dest[1])[e.r9 + 56] = expr
-            b.out_mem(9, 56, FMT[dest[1]][0], 0)
+            b.out_mem(9, 56, FMT[dest[1][-1]][0], 0)
         b.finish()
         b.code()
 
@@ -362,14 +371,14 @@ def run_case(tree, dest, alias, vectors, res, kernel_every=0, caseno=0):
         exp, status = expected(tree, dest, env)
         try:
             _, outs, _, vm = p.b.run_vm(p.inputs(env))
-            obs = outs[0] & dmask
+            obs = unswap(dest, outs[0]) & dmask
             trap = None
         except bpfvm.Trap as t:
             obs, trap = None, str(t)
         if kfd is not None and trap is None:
             res.count("kernel_validated")
             _, kouts, _ = p.b.run_kernel(kfd, p.inputs(env))
-            if kouts[0] & dmask != obs:
+            if unswap(dest, kouts[0]) & dmask != obs:
                 import os
                 os.close(kfd)
                 raise core.Internal(
@@ -399,7 +408,7 @@ def run_case(tree, dest, alias, vectors, res, kernel_every=0, caseno=0):
                            p.b.packet(p.inputs(env)))
             try:
                 vm2.run()
-                if p.b.outputs(vm2.packet)[0] & dmask in exp:
+                if unswap(dest, p.b.outputs(vm2.packet)[0]) & dmask in exp:
                     kf = KF_DIV
             except bpfvm.Trap:
                 pass
@@ -415,7 +424,8 @@ def run_case(tree, dest, alias, vectors, res, kernel_every=0, caseno=0):
                     vm2 = bpfvm.VM(bpfvm.Kernel(), ins,
                                    p2.b.packet(p2.inputs(env, sx_sw=True)))
                     vm2.run()
-                    if p2.b.outputs(vm2.packet)[0] & dmask in exp:
+                    if unswap(dest, p2.b.outputs(vm2.packet)[0]) & dmask \
+                            in exp:
                         kf = kfc
                         break
             except bpfvm.Trap:
@@ -458,7 +468,8 @@ def alphabet(ctx):
             [("loc", f) for f in "BhiQq"] + [("pkt", "H")]
         consts = [1, -1, 7, 1 << 31, 0x1234567890, -(1 << 63)]
         dests = [("reg", "r"), ("reg", "sr"), ("reg", "w"), ("reg", "sw"),
-                 ("loc", "h"), ("loc", "I"), ("loc", "q"), ("loc", "B")]
+                 ("loc", "h"), ("loc", "I"), ("loc", "q"), ("loc", "B"),
+                 ("loc", ">q"), ("loc", "<i")]
     else:
         leaves = [("reg", k) for k in ("r", "sr", "w", "sw")] + \
             [("loc", f) for f in "BbHhIiQq"] + \
@@ -467,7 +478,8 @@ def alphabet(ctx):
                   (1 << 32) - 1, 0x1234567890, (1 << 63) - 1, -(1 << 63),
                   (1 << 64) - 1, 31, 63]
         dests = [("reg", k) for k in ("r", "sr", "w", "sw")] + \
-            [("loc", f) for f in "BbHhIiQq"] + [("pkt", "H"), ("pkt", "q")]
+            [("loc", f) for f in "BbHhIiQq"] + [("pkt", "H"), ("pkt", "q")] + \
+            [("loc", f) for f in (">q", "<q", "!Q", ">i", "<h", ">H")]
     import random
     rnd = random.Random(ctx.seed)
     consts += [rnd.getrandbits(64) - (1 << 63), rnd.getrandbits(31)]
